@@ -222,10 +222,45 @@ _classes = {}
 _count = [0]
 
 
-def build_class(accs, base='Module'):
+def _feature(name):
+    """a Feature mixin: the real frappy.features.HasOffset, or a fresh generated class VFeatA / VFeatB
+    (Feature as a direct base, one parameter: fa / fb as in Describe.tla's FeatAccs)"""
+    import frappy.modules as M
+    from frappy.datatypes import IntRange, StringType
+    from frappy.modulebase import Feature
+    if name == 'HasOffset':
+        from frappy.features import HasOffset
+        return HasOffset
+    body = {'VFeatA': {'fa': M.Parameter('p', IntRange(0, 8), readonly=False, default=3)},
+            'VFeatB': {'fb': M.Parameter('p', StringType(0, 3), readonly=False, default='ab')}}[name]
+    return type(name, (Feature,), body)
+
+
+FEATURE_ACCS = {       # the accessibles a feature brings along, in the vocabulary of the shapes (= Describe.tla FeatAccs)
+    'VFeatA': ('fa', {'t': 'int', 'lo': 0, 'hi': 8}, {'k': 'num', 'n': 3}),
+    'VFeatB': ('fb', {'t': 'string', 'minc': 0, 'maxc': 3, 'utf8': False}, {'k': 'str', 's': 'ab', 'len': 2, 'ascii': True}),
+    'HasOffset': ('offset', {'t': 'double', 'lo': -10 ** 6, 'hi': 10 ** 6}, {'k': 'num', 'n': 0}),
+}
+
+
+def with_features(accs, feats):
+    for f in feats:
+        attr, dt, init = FEATURE_ACCS[f['name']]
+        accs[attr] = {'kind': 'param', 'wire': '_' + attr, 'dt': dt, 'ro': False, 'const': NULL, 'init': init,
+                      'lim': {'kind': 'none'}, 'hooks': [], 'drv': 'absent', 'ret': NULL, 'islimit': False,
+                      'level': 'X', 'feature': f['name']}
+    return accs
+
+
+def features_of(feats):
+    """names a node built with this plan has to describe: MRO order = direct, then one, then two classes up"""
+    return [f['name'] for how in ('direct', 'mid', 'base') for f in feats if f['how'] == how]
+
+
+def build_class(accs, base='Module', feats=()):
     """accs: {attr: accessible record} -> Module subclass  VMod(VLim, VMid(VBase(<base>))); hooks and limit
     parameters are placed in the class their 'at' / 'level' names"""
-    key = json.dumps([accs, base], sort_keys=True)
+    key = json.dumps([accs, base, list(feats)], sort_keys=True)
     if key in _classes:
         return _classes[key]
     boot()
@@ -237,8 +272,8 @@ def build_class(accs, base='Module'):
         if acc['kind'] == 'cmd':
             body['B'][attr] = _mk_cmd(attr, acc)
             continue
-        if acc.get('islimit'):
-            continue
+        if acc.get('islimit') or acc.get('feature'):
+            continue                    # limit parameters below; feature parameters come with their mixin
         kw = {'readonly': acc['ro'], 'export': _export(attr, acc)}
         if acc['const'] != NULL:
             kw['constant'] = conc(acc['const'])
@@ -259,11 +294,12 @@ def build_class(accs, base='Module'):
             body[acc.get('level', 'X')][attr] = Limit() if ex is True else Limit(export=ex)
     _count[0] += 1
     n = _count[0]
-    top = type(f'VBase{n}', (bases[base],), body['B'])
-    if body['M']:
-        top = type(f'VMid{n}', (top,), body['M'])
+    mix = {how: tuple(_feature(f['name']) for f in feats if f['how'] == how) for how in ('direct', 'mid', 'base')}
+    top = type(f'VBase{n}', mix['base'] + (bases[base],), body['B'])
+    if body['M'] or mix['mid'] or mix['base']:      # 'base' features are inherited through two classes
+        top = type(f'VMid{n}', mix['mid'] + (top,), body['M'])
     seq = (type(f'VLim{n}', (), body['X']), top) if body['X'] else (top,)
-    cls = type(f'VMod{n}', seq, body['D'])
+    cls = type(f'VMod{n}', mix['direct'] + seq, body['D'])
     _classes[key] = cls
     return cls
 
@@ -325,13 +361,13 @@ class World:
     """real modules for the exported modules of `shape` plus an unexported module 'h'
     of the same class, a real dispatcher, one activated connection"""
 
-    def __init__(self, shape, bases=None):
+    def __init__(self, shape, bases=None, feats=None):
         self.shape = shape
         self.srv = ServerStub()
         self.mods = {}
         first = None
         for mname, accs in shape.items():
-            cls = build_class(accs, (bases or {}).get(mname, 'Module'))
+            cls = build_class(accs, (bases or {}).get(mname, 'Module'), (feats or {}).get(mname, ()))
             first = first or cls
             self.mods[mname] = self._add(cls, mname, {a: {'export': False} for a, acc in accs.items()
                                                       if 'cls_wire' in acc})
